@@ -128,8 +128,11 @@ func (store *Store) replaceFile(content []byte) error {
 	if err != nil {
 		return err
 	}
+	verifPoint("pre.create.after_create")
 	if _, err = f.Write(content); err == nil {
+		verifPoint("pre.create.after_write")
 		err = f.Sync()
+		verifPoint("pre.create.after_sync")
 	}
 	if cerr := f.Close(); err == nil {
 		err = cerr
@@ -139,6 +142,7 @@ func (store *Store) replaceFile(content []byte) error {
 	}
 	_ = store.rw.Close()
 	err = os.Rename(tmp, store.path)
+	verifPoint("pre.create.after_rename")
 	// The rename must be on disk before the log is truncated.
 	if dir, derr := os.Open(path.Dir(store.path)); derr == nil {
 		_ = dir.Sync()
